@@ -81,17 +81,21 @@ Section Greedy.
 
   Lemma try_opts_cases opts : forall ex a r bs ex1, ExInv ex a ->
     try_opts D opts ex a = Some (r, bs, ex1) ->
-    (r = a /\ bs = [] /\ exists p, ex1 = p :: ex /\ scan D p [] a = None /\ first_scan opts a = first_scan opts a) \/
+    (r = a /\ bs = [] /\ exists p, ex1 = p :: ex /\ scan D p [] a = None /\ (In p opts /\ oi_fromenv D p = true)) \/
     (exists o v, first_scan opts a = Some (o, v, r) /\ bs = [(KO o, v)] /\ ex1 = ex).
   Proof.
     induction opts as [|o opts IH]; intros ex a r bs ex1 Hinv; cbn [try_opts first_scan]; [discriminate|].
     destruct (mem_nat o ex) eqn:Hm.
-    - apply mem_nat_In in Hm. rewrite (Hinv o Hm). now apply IH.
+    - apply mem_nat_In in Hm. rewrite (Hinv o Hm). intros H.
+      destruct (IH _ _ _ _ _ Hinv H) as [(E1 & E2 & p & E3 & E4 & E5 & E6)|X]; [|now right].
+      left. repeat split; auto. exists p. repeat split; auto. now right.
     - rewrite m_opt_scan. destruct (scan D o [] a) as [[v rem]|] eqn:Es.
       + intros [= <- <- <-]. right. exists o, v. auto.
-      + destruct (oi_fromenv D o).
-        * intros [= <- <- <-]. left. repeat split; auto. exists o. auto.
-        * now apply IH.
+      + destruct (oi_fromenv D o) eqn:He.
+        * intros [= <- <- <-]. left. repeat split; auto. exists o. repeat split; auto. now left.
+        * intros H. destruct (IH _ _ _ _ _ Hinv H) as [(E1 & E2 & p & E3 & E4 & E5 & E6)|(o' & v' & E1 & E2 & E3)].
+          -- left. repeat split; auto. exists p. repeat split; auto. now right.
+          -- right. exists o', v'. auto.
   Qed.
 
   Lemma try_opts_none opts : forall ex a, ExInv ex a -> try_opts D opts ex a = None -> first_scan opts a = None.
@@ -134,17 +138,19 @@ Section Greedy.
 
   (** the group matcher: greedy, and it succeeds iff it took something or a listed option is backed
       by the environment *)
-  Theorem m_group_greedy opts a u m ro b : Reads D a u ->
-    m_group D opts a false = Some (m, ro, b) -> ro = false /\ Greedy opts a b m.
+  Theorem m_group_greedy_env opts a u m ro b : Reads D a u ->
+    m_group D opts a false = Some (m, ro, b) ->
+    ro = false /\ a <> [] /\ Greedy opts a b m /\ (b <> [] \/ exists o, In o opts /\ oi_fromenv D o = true).
   Proof.
     intros Hr. unfold m_group, try_. destruct a as [|t rest]; [discriminate|].
     destruct (try_opts D opts [] (t :: rest)) as [[[r bs] ex1]|] eqn:Et; [|discriminate].
     destruct (group_loop D (group_fuel opts (t :: rest)) opts ex1 r bs) as [[m0 b0]|] eqn:Eg; [|discriminate].
-    intros [= <- <- <-]. split; [reflexivity|].
+    intros [= <- <- <-]. split; [reflexivity|]. split; [discriminate|].
     assert (Hinv0 : ExInv [] (t :: rest)) by (intros p []).
-    destruct (try_opts_cases _ _ _ _ _ _ Hinv0 Et) as [(-> & -> & p & -> & Hp & _)|(o & v & Hf & -> & ->)].
+    destruct (try_opts_cases _ _ _ _ _ _ Hinv0 Et) as [(-> & -> & p & -> & Hp & Hin & He)|(o & v & Hf & -> & ->)].
     - assert (Hinv1 : ExInv [p] (t :: rest)) by (intros q [<-|[]]; exact Hp).
-      destruct (group_loop_greedy _ _ _ _ _ u _ _ Hr Hinv1 Eg) as (bs' & -> & Hg). exact Hg.
+      destruct (group_loop_greedy _ _ _ _ _ u _ _ Hr Hinv1 Eg) as (bs' & -> & Hg). split; [exact Hg|].
+      right. eauto.
     - assert (Hs : scan D o [] (t :: rest) = Some (v, r)).
       { clear -Hf. induction opts as [|o' opts IHo]; cbn [first_scan] in Hf; [discriminate|].
         destruct (scan D o' [] (t :: rest)) as [[v' r']|] eqn:E; [now injection Hf as <- <- <- | auto]. }
@@ -152,7 +158,34 @@ Section Greedy.
       destruct H as (a0 & E & Hr0). rewrite Hs in E. injection E as <- <-.
       assert (Hinv1 : ExInv [] r) by (intros q []).
       destruct (group_loop_greedy _ _ _ _ _ u' _ _ Hr0 Hinv1 Eg) as (bs' & -> & Hg).
-      cbn [List.app]. eapply GStep; eauto.
+      cbn [List.app]. split; [eapply GStep; eauto | left; discriminate].
+  Qed.
+
+  Theorem m_group_greedy opts a u m ro b : Reads D a u ->
+    m_group D opts a false = Some (m, ro, b) -> ro = false /\ Greedy opts a b m.
+  Proof. intros Hr Hg. destruct (m_group_greedy_env opts a u m ro b Hr Hg) as (H1 & _ & H2 & _). auto. Qed.
+
+  (** and it does succeed whenever a listed option has an occurrence in the run or is backed by the
+      environment, on a non-empty line *)
+  Lemma try_opts_some opts : forall ex a o,
+    In o opts -> mem_nat o ex = false -> (scan D o [] a <> None \/ oi_fromenv D o = true) -> try_opts D opts ex a <> None.
+  Proof.
+    induction opts as [|p opts IH]; intros ex a o Hin Hm Ho; [destruct Hin|]. cbn [try_opts].
+    destruct (mem_nat p ex) eqn:Hp.
+    - destruct Hin as [->|Hin]; [congruence | now apply (IH ex a o)].
+    - rewrite m_opt_scan. destruct (scan D p [] a) as [[v rem]|] eqn:Es; [discriminate|].
+      destruct (oi_fromenv D p) eqn:He; [discriminate|].
+      destruct Hin as [->|Hin]; [destruct Ho; congruence | now apply (IH ex a o)].
+  Qed.
+
+  Theorem m_group_succeeds opts a o : a <> [] -> In o opts ->
+    (scan D o [] a <> None \/ oi_fromenv D o = true) -> m_group D opts a false <> None.
+  Proof.
+    intros Ha Hin Ho. unfold m_group. pose proof (m_group_never_out_of_fuel D opts a) as N.
+    assert (T : try_ D opts [] a false <> None).
+    { unfold try_. destruct a; [congruence|]. now apply (try_opts_some opts [] _ o). }
+    destruct (try_ D opts [] a false) as [[[r0 b0] e0]|]; [|congruence].
+    destruct (group_loop D (group_fuel opts a) opts e0 r0 b0) as [[m1 b1]|]; [discriminate | congruence].
   Qed.
 End Greedy.
 
